@@ -1049,7 +1049,7 @@ fn main() {
     let wall_cap = std::env::var("VERIF_WALL_CAP_S")
         .ok()
         .and_then(|v| v.parse::<f64>().ok())
-        .unwrap_or(ctx.pick(35.0, 1500.0));
+        .unwrap_or(ctx.pick(25.0, 1200.0));
     let capped = AtomicBool::new(false);
     let skipped = AtomicU64::new(0);
     let start = Instant::now();
@@ -1104,7 +1104,8 @@ fn main() {
             lits.lock().unwrap().insert(h.to_vec(), vec![]);
             return Some(bfs::StepResult { key, actions: acts });
         }
-        if start.elapsed().as_secs_f64() > wall_cap {
+        // the gate histories are always executed, so that the determinism gate never depends on the cap
+        if start.elapsed().as_secs_f64() > wall_cap && !gate_histories.iter().any(|g| g.starts_with(h)) {
             capped.store(true, Ordering::Relaxed);
             skipped.fetch_add(1, Ordering::Relaxed);
             return None;
